@@ -8,9 +8,9 @@ CONSTANTS
     TrackHist = FALSE
     MaxLen = 0
 INVARIANT TypeOK
-INVARIANT ModesAgree
 INVARIANT NoNewKeys
 INVARIANT SamplerConsistent
 PROPERTY ObserversNeutral
 PROPERTY SetterFrame
 PROPERTY OptionFrame
+PROPERTY ModeFrame
